@@ -557,6 +557,11 @@ func queryFace(ft *font.Font, w func(a ...any), seed uint64, focus []uint16) {
 		}
 	}
 	queryGlyphs()
+	// glyph names: a spread over the glyph range plus the sizes of the built-in name tables
+	// (predefined CFF charsets of 87 / 166 / 229 entries, 258 Macintosh names, 391 standard strings)
+	for _, g := range []int{85, 86, 87, 164, 165, 166, 227, 228, 229, 230, 257, 258, 259, 390, 391, 392, 500, 700, 900, 1200, 2000, 5000, 20000, 65534} {
+		w(ft.GlyphName(font.GID(g)))
+	}
 	w(len(ft.BitmapSizes()))
 	for _, bs := range ft.BitmapSizes() {
 		face.SetPpem(bs.XPpem, bs.YPpem)
@@ -1416,8 +1421,13 @@ func GenCase(seed int64, idx int, files []*corpus.File) *Case {
 			return genRecursionCase(seed, idx/32, files)
 		case 1:
 			return genBitmapIndexCase(seed, idx/32, files)
+		case 2:
+			return genLayoutCase(seed, idx/32, files)
 		default:
-			return genLayoutCase(seed, idx/32*2+(idx/8)%4-2, files)
+			if (idx/32)%2 == 0 {
+				return genLayoutCase(seed, idx/32+1<<20, files)
+			}
+			return genCFFDictCase(seed, idx/64, files)
 		}
 	}
 	return genFileCase(seed, idx, files)
